@@ -32,11 +32,13 @@ const (
 	fBadSig         // 0 good | 1 last signature byte flipped
 	fPool           // 0 pool of its role | 1 additionally in the other pool (leaf: also in Roots) | 2 in no pool
 	fNames          // leaf only: 0 SAN=[srv.example] | 1 no SAN, CN=srv.example | 2 SAN=[*.example] | 3 SAN=[other.example], CN=srv.example
+	fVer            // 0 X.509 v3 | 1 v1: no version field, no extensions | 2 v2: version field 1, no extensions (hand-encoded TBS, see version.go)
+	fKU             // CA roles only: 0 no keyUsage extension | 1 keyUsage = digitalSignature (no keyCertSign) | 2 keyUsage = keyCertSign+cRLSign
 	nFields
 )
 
-var fieldName = [nFields]string{"ca", "pathlen", "eku", "validity", "kid", "badsig", "pool", "names"}
-var fieldMax = [nFields]int{2, 2, 4, 4, 2, 1, 2, 3}
+var fieldName = [nFields]string{"ca", "pathlen", "eku", "validity", "kid", "badsig", "pool", "names", "version", "keyusage"}
+var fieldMax = [nFields]int{2, 2, 4, 4, 2, 1, 2, 3, 2, 2}
 var valueName = [nFields][]string{
 	{"CA", "notCA", "noBC"},
 	{"none", "0", "1", "2"},
@@ -46,6 +48,8 @@ var valueName = [nFields][]string{
 	{"good", "corrupt"},
 	{"role", "both-pools", "no-pool"},
 	{"san=srv.example", "cn-only=srv.example", "san=*.example", "san=other.example+cn=srv.example"},
+	{"v3", "v1-no-extensions", "v2-no-extensions"},
+	{"none", "digitalSignature-only", "keyCertSign+cRLSign"},
 }
 
 const (
@@ -197,6 +201,9 @@ func topologies() []topology {
 
 // ---- deviation atoms ------------------------------------------------------
 
+// quickTier is set by main before the atoms are listed.
+var quickTier bool
+
 // atom = (certificate index, field, value). cert == -1: the global "pool order reversed" switch.
 type atom struct{ Cert, Field, Val int }
 
@@ -236,6 +243,10 @@ func (t *topology) atoms() []atom {
 				}
 				switch {
 				case f == fNames && d.Role != roleLeaf:
+					continue
+				case f == fKU && d.Role == roleLeaf: // nobody is issued by the leaf: its key usage decides nothing
+					continue
+				case f == fKU && v == 2 && quickTier: // "keyCertSign present" must behave like "no keyUsage": thorough tier only
 					continue
 				case f == fPathLen && d.Role == roleLeaf:
 					continue
@@ -304,7 +315,7 @@ type mintSpec struct {
 }
 
 func (m *mintSpec) cacheKey() string {
-	return fmt.Sprintf("%s|%s|%s|%s|%d|%v|%d|%x|%v", m.subj, m.key, m.iss, m.issKey, m.serial, m.vals[:fPool], m.vals[fNames], m.akid, m.entrust)
+	return fmt.Sprintf("%s|%s|%s|%s|%d|%v|%d|%x|%v|%d|%d", m.subj, m.key, m.iss, m.issKey, m.serial, m.vals[:fPool], m.vals[fNames], m.akid, m.entrust, m.vals[fVer], m.vals[fKU])
 }
 
 func ekuOf(v, role int) []x509.ExtKeyUsage {
@@ -357,6 +368,12 @@ func mint(m *mintSpec) (*gcert, error) {
 		spec.SKID = skid(m.subj, m.key)
 		spec.AKID = m.akid
 	}
+	switch m.vals[fKU] {
+	case 1:
+		spec.KeyUsage = x509.KeyUsageDigitalSignature
+	case 2:
+		spec.KeyUsage = x509.KeyUsageCertSign | x509.KeyUsageCRLSign
+	}
 	var der []byte
 	if m.entrust {
 		// fx.Mint derives the subject key from a private-key fixture; here only a public key exists.
@@ -383,6 +400,18 @@ func mint(m *mintSpec) (*gcert, error) {
 		}
 		der = c.DER
 	}
+	if v := m.vals[fVer]; v != 0 {
+		// X.509 v1 / v2: CreateCertificate only issues v3, so the TBSCertificate is re-encoded by hand without
+		// the extensions (and with the version field of v1 / v2) and signed again with the issuer's key.
+		issKey := m.issKey
+		if m.iss == "" {
+			issKey = m.key
+		}
+		var err error
+		if der, err = reissueAsVersion(der, v, issKey); err != nil {
+			return nil, fmt.Errorf("re-encoding %s as X.509 v%d: %w", k, v, err)
+		}
+	}
 	if m.vals[fBadSig] == 1 {
 		der = append([]byte(nil), der...)
 		der[len(der)-1] ^= 0x01
@@ -390,6 +419,9 @@ func mint(m *mintSpec) (*gcert, error) {
 	std, err := stdx509.ParseCertificate(der)
 	if err != nil {
 		return nil, fmt.Errorf("crypto/x509 cannot parse minted certificate %s: %w", k, err)
+	}
+	if v := m.vals[fVer]; v != 0 && (std.Version != v || len(std.Extensions) != 0) {
+		return nil, fmt.Errorf("hand-encoded certificate %s: crypto/x509 reads version %d with %d extensions, want v%d without extensions", k, std.Version, len(std.Extensions), v)
 	}
 	g := &gcert{id: int(nextID.Add(1)), der: der, std: std}
 	if prev, loaded := mintCache.LoadOrStore(k, g); loaded {
@@ -449,6 +481,30 @@ func effective(t *topology, as []atom) bool {
 	for i, a := range as {
 		for _, b := range as[:i] {
 			if a.Cert == b.Cert && a.Field == b.Field {
+				return false
+			}
+		}
+	}
+	// a v1 / v2 certificate has no extensions: deviations of the same certificate that only change extensions
+	// (and the two leaf-name shapes that differ from another one by the SAN only) produce the same certificate
+	for _, a := range as {
+		if a.Cert < 0 || a.Field == fVer {
+			continue
+		}
+		ver := t.Defs[a.Cert].Base[fVer]
+		for _, b := range as {
+			if b.Cert == a.Cert && b.Field == fVer {
+				ver = b.Val
+			}
+		}
+		if ver == 0 {
+			continue
+		}
+		switch a.Field {
+		case fCA, fPathLen, fEKU, fKID, fKU:
+			return false
+		case fNames:
+			if a.Val == 2 || a.Val == 3 {
 				return false
 			}
 		}
